@@ -7,6 +7,7 @@ package main
 
 import (
 	"fmt"
+	"os"
 	"go/token"
 	"go/types"
 	"sort"
@@ -69,6 +70,7 @@ type Exec struct {
 	inSpec    int
 	pendingPtrs []*Term
 	oblSeen   map[string]bool
+	inInit    bool
 	noAlloc   int
 	covers    []*Obligation
 }
@@ -727,6 +729,9 @@ func (fr *Frame) execBlock(b *ssa.BasicBlock, pc *Term, st *State, addEdge func(
 		case *ssa.If:
 			c := fr.val(x.Cond).(BoolV).T
 			fr.ifConcrete[b] = c.IsLit()
+			if os_debug && !c.IsLit() && fr.fn.Name() == os.Getenv("LNCVC_DEBUG_IF") {
+				fmt.Printf("IF %s block %d: %.6000s\n", fr.fn.Name(), b.Index, c.String())
+			}
 			addEdge(b, b.Succs[0], And(pc, c), st)
 			addEdge(b, b.Succs[1], And(pc, Not(c)), st)
 			return
@@ -738,11 +743,12 @@ func (fr *Frame) execBlock(b *ssa.BasicBlock, pc *Term, st *State, addEdge func(
 			switch len(x.Results) {
 			case 0:
 			case 1:
-				v = fr.val(x.Results[0])
+				v = ex.escapeSlice(st, fr.val(x.Results[0]), pc)
 			default:
 				es := make([]Value, len(x.Results))
 				for i, r := range x.Results {
-					es[i] = fr.val(r)
+					// a slice of a local array that is returned outlives the frame
+					es[i] = ex.escapeSlice(st, fr.val(r), pc)
 				}
 				v = TupleV{es}
 			}
